@@ -253,6 +253,9 @@ class TypeState:
         is_init = func.name == "__init__"
         clone_fam = is_clone_family(func)
         follow = _prune(fe, nones)
+        # parameters that are None in this specialisation and never reassigned: handed on, they are None in the callee too
+        assigned_ = {n_.id for n_ in ast.walk(func.node) if isinstance(n_, ast.Name) and isinstance(n_.ctx, ast.Store)}
+        still_none = frozenset(p for p in nones if p not in assigned_)
         refusable = M.refusable
         r1, e2, unann, e5 = [], [], set(), []
         all_writes, all_not = set(), set()
@@ -368,7 +371,7 @@ class TypeState:
                                 unann.add((sp, ev.cls, ev.field, ev.op, func.key, short(ev.stmt, 90), func.loc(ev.stmt), why))
                 elif ev.kind == "call":
                     for t in ev.targets or []:
-                        cs = self.get(t, M.none_params(ev, t)) if t.key in self.funcs else None
+                        cs = self.get(t, M.none_params(ev, t, still_none)) if t.key in self.funcs else None
                         if cs is None:
                             continue
                         amap = M.argmap(ev, t)
